@@ -157,9 +157,14 @@ class GdbDebugDriver(DebugDriver):
             self.set_pc(pc - 4)
 
     def stop(self):
+        """Interrupt the target.
+
+        The status changes to stopped when the stop reply of the target
+        is processed (see _process_stop_status), not here: the target
+        is still running when the interrupt is sent.
+        """
         if self.status == DebugState.RUNNING:
             self._sendbrk()
-            self.status = DebugState.STOPPED
         else:
             self.logger.warning("Cannot stop if not running")
 
